@@ -59,16 +59,19 @@ def run_batch(ctx, cfg, batch, props):
 
 
 def random_histories(ctx, props, count, steps, maxnodes):
-    cfg = T.HTML_CFG
     rng = ctx.rng
-    batch = []
-    for _ in range(count):
-        evs = G.random_doc(rng, maxnodes)
-        if rng.random() < 0.3:
-            evs = G.relabel(evs)
-        ops, exp = R.gen_history(rng, evs, cfg, steps)
-        batch.append((evs, ops, exp))
-    run_batch(ctx, cfg, batch, props)
+    # second configuration: every other generated tag name is a VOID element name of the builder - such elements are parsed
+    # childless but the editing calls may give them children like any other tag (the flag only matters for output)
+    void_cfg = dict(T.HTML_CFG, void=sorted(set(T.HTML_CFG["void"]) | {"t%d" % i for i in range(0, 64, 2)} | {"f%d" % i for i in range(0, 400, 3)}))
+    for cfg, share in ((T.HTML_CFG, count - count // 4), (void_cfg, count // 4)):
+        batch = []
+        for _ in range(share):
+            evs = G.random_doc(rng, maxnodes)
+            if rng.random() < 0.3:
+                evs = G.relabel(evs)
+            ops, exp = R.gen_history(rng, evs, cfg, steps)
+            batch.append((evs, ops, exp))
+        run_batch(ctx, cfg, batch, props)
     if batch:
         ctx.sample({"events": batch[-1][0], "ops": batch[-1][1][:6]})
 
